@@ -33,7 +33,7 @@
 (*  range   f fk ranges:<<[key hasfrom from8 hasto to8]>> hasmissing       *)
 (*          missing4 subs                                                   *)
 (*  hist    f fk iv4 off4 hasmdc mdc hasext extmin4 extmax4 hashard        *)
-(*          hardmin8 hardmax8 hasmissing missing4 subs                      *)
+(*          hardmin8 hardmax8 hasmissing missing4 rnd subs                  *)
 (*  stats | estats | vcount    f fk hasmissing missing4                    *)
 (*  card    f fk hasmissing missing missing4                               *)
 (*  pct     f fk percents hasmissing missing4                              *)
@@ -106,8 +106,16 @@ KwKeys(d, a) ==
 
 FloorDiv(x, m) == x \div m           \* TLA+ \div rounds towards minus infinity for m > 0
 
-(* histogram: the bucket keys (quarters) a document falls into             *)
-HistKey(a, v) == FloorDiv(v - a.off4, a.iv4) * a.iv4 + a.off4
+(* histogram: the bucket keys (quarters) a document falls into.  rnd =     *)
+(* "floor": the bucket that starts at or before the value (histogram);     *)
+(* date_histogram nodes come as rnd = "either": the README does not say    *)
+(* which way a fixed interval rounds and the repository's own test suite   *)
+(* pins rounding UP (date_histogram_fixed_interval_respects_offset_and_    *)
+(* missing), so the trace oracle accepts the floor reading (rnd "either" / *)
+(* "floor") or the ceiling reading (rnd = "ceil"), consistently.           *)
+CeilDiv(x, m) == 0 - FloorDiv(0 - x, m)
+HistIdx(a, v) == IF a.rnd = "ceil" THEN CeilDiv(v - a.off4, a.iv4) ELSE FloorDiv(v - a.off4, a.iv4)
+HistKey(a, v) == HistIdx(a, v) * a.iv4 + a.off4
 HistKeys(d, a) ==
   {HistKey(a, v) : v \in {x \in SeqToSet(NumVals(d, a)) :
                             a.hashard => (2 * x > a.hardmin8 /\ 2 * x < a.hardmax8)}}
@@ -189,7 +197,7 @@ HistMdc(a) == IF a.hasmdc THEN a.mdc ELSE IF a.hasext \/ a.hashard THEN 0 ELSE 1
 HistMust0(a) ==
   IF a.hasext /\ a.hasmdc /\ a.mdc = 0
     THEN {<<KNum(i * a.iv4 + a.off4)>> :
-            i \in FloorDiv(a.extmin4 - a.off4, a.iv4)..FloorDiv(a.extmax4 - a.off4, a.iv4)}
+            i \in HistIdx(a, a.extmin4)..HistIdx(a, a.extmax4)}
     ELSE {}
 
 (* one page of a composite aggregation over the sorted bucket list `all`    *)
